@@ -4,6 +4,7 @@ import (
 	"encoding/json"
 	"fmt"
 	"math/rand"
+	"os"
 	"regexp"
 	"strings"
 
@@ -216,6 +217,10 @@ func wireLookup(w W, p string) W {
 }
 
 func c03Run(c *Ctx) {
+	if os.Getenv("VERIF_C03_ONLY") == "heap-hist" { // detection experiments: the pointer-level histories alone
+		heapHistGen(c, c.N(250))
+		return
+	}
 	r := c.Rng
 	g := stdGen()
 	g.Keys = c03Keys
